@@ -170,9 +170,8 @@ func VerifC19Connect() {
 		override = "enode://" + nodeID + "@[::]:30303"
 	}
 	req := ConnectRequest{NodeInfo: ethnode.UserAgent{Kind: ethnode.Geth, IsFullNode: true}, NodeURI: override}
-	nonce := VerifFreshNonce()
 	ctx := jsonrpc2.VerifCtxWithService(context.Background(), svc)
-	_, err := p.Connect(ctx, sigs.SignFor(nodeID, "vipnode_connect", nonce, req), nodeID, nonce, req)
+	err := VerifRegisterHost(p, ctx, nodeID, req)
 	verifapi.Reach("c19.connect")
 	if src == "" {
 		verifapi.Assert(err != nil, "c19.connect-undeterminable-address-refused")
@@ -233,9 +232,8 @@ func VerifC19Reregister() {
 			req.NodeURI = "enode://" + nodeID + "@" + net.JoinHostPort(a, "30305")
 		}
 		fs.failSetNode = verifapi.Bool(fmt.Sprint("storagefault", i))
-		nonce := VerifFreshNonce()
 		ctx := jsonrpc2.VerifCtxWithService(context.Background(), svc)
-		_, err := p.Connect(ctx, sigs.SignFor(nodeID, "vipnode_connect", nonce, req), nodeID, nonce, req)
+		err := VerifRegisterHost(p, ctx, nodeID, req)
 		if fs.failSetNode {
 			verifapi.Assert(err != nil, "c19.rereg.unrecordable-registration-refused")
 		} else {
@@ -281,10 +279,8 @@ func VerifC19Refused() {
 	conn0 := &VerifHost{Name: "conn0", Addr: "203.0.113.5:5000", Behaviours: 1}
 	req := ConnectRequest{NodeInfo: ethnode.UserAgent{Kind: ethnode.Geth, IsFullNode: true}}
 	connect := func(svc *VerifHost, req ConnectRequest) error {
-		nonce := VerifFreshNonce()
 		ctx := jsonrpc2.VerifCtxWithService(context.Background(), svc)
-		_, err := p.Connect(ctx, sigs.SignFor(hid, "vipnode_connect", nonce, req), hid, nonce, req)
-		return err
+		return VerifRegisterHost(p, ctx, hid, req)
 	}
 	verifapi.Assert(connect(conn0, req) == nil, "c19.refused.setup")
 	closed0 := verifapi.Bool("conn0-ends")
